@@ -11,6 +11,8 @@ ENGINES = [
      'kind_free_text': 'explicit enumeration of every input shape/value/configuration inside stated bounds; real code run on each; compared with a reference model on every case'},
     {'name': 'E4-sanitizer-native-enumerator', 'path': 'native/c08drv.c, vf/props/c08.py', 'serves_properties': ['C08'],
      'kind_free_text': 'native driver enumerating its configuration universe under ASan/UBSan with exact-size buffers; abort-and-restart attribution through a breadcrumb file'},
+    {'name': 'E3-vomp-schedule-explorer', 'path': 'native/vomp.c, native/c07drv.c, vf/props/c07.py', 'serves_properties': ['C07'],
+     'kind_free_text': 'own GOMP_*/__tsan_* runtime with ucontext coroutines; CHESS-style iterative preemption bounding with replayable choice sequences; virtual multiprocessing pool with exhaustive completion orders'},
 ]
 
 PENDING = 'check not built yet in this round (planned, see DESIGN.md section 4); not claimed until it exists and is silent on the unchanged tree'
@@ -77,6 +79,14 @@ CHECKS['C08'] = (E4, 'E4-sanitizer-native-enumerator',
     'and dtw_dba_* for every mask; every caller buffer is malloc\'ed at exactly the documented size; built once as shipped (NDEBUG) and once with asserts. A second pass drives 20 Cython wrapper calls per configuration on an ASan-built extension.',
     'Trusted: ASan/UBSan red zones as monitor. Accesses landing in another live allocation beyond the red zone are invisible; thread schedules are those of the real libgomp (C07 explores schedules).',
     'DESIGN.md section 4 C08')
+
+E3 = 'stateless model checking of the real C code under a controlled cooperative scheduler (iterative preemption bounding), plus exhaustive completion orders of a virtual worker pool'
+CHECKS['C07'] = (E3, 'E3-vomp-schedule-explorer',
+    'The six dtw_distances_*_parallel routines are compiled with gcc -fopenmp (outlined exactly as shipped) and -fsanitize=thread as an instrumentation pass, and linked against vomp, a virtual OpenMP runtime whose ucontext threads are '
+    'scheduled by the explorer: every interleaving of scheduling points up to 2 (3) preemptions x T = 1..3 (4) x 5 dispatch kinds (static/dynamic/guided, chosen by the explorer) x blocks x 2 settings must give output bitwise equal to the serial routine; '
+    'conflicting accesses found by a shadow map become additional scheduling points (two-phase). multiprocessing: a virtual Pool (pickled tasks, real chunking, all completion orders, P = 1..3) replaces multiprocessing.Pool; validated against the real Pool.',
+    'Trusted: vomp (sequentially consistent interleavings; libgomp itself and weak memory are out of scope), gcc outlining. Bounds: T <= 4, preemption bound <= 3, n <= 5.',
+    'DESIGN.md section 3 E3a/E3b, section 4 C07')
 
 ALL = ['C%02d' % i for i in range(1, 21)]
 NOT_APPLICABLE = {p: PENDING for p in ALL if p not in CHECKS}
